@@ -198,6 +198,9 @@ class _SVD:
             }
             solver_kwargs.setdefault("compute", False)
             solver_kwargs.setdefault("n_power_iter", 4)
+            # re-orthonormalise between the power iterations: plain powers
+            # lose the directions far below the leading singular value
+            solver_kwargs.setdefault("iterator", "QR")
             U, s, VT = self._svd(X, dask_svd, solver_kwargs)
         else:
             err_msg = (
